@@ -671,7 +671,15 @@ func (ip *Interp) indexCheck(idx Value, it types.Type, n int) int {
 		}
 		return int(i)
 	}
+	if t.w < 63 && !signed && uint64(n) >= uint64(1)<<t.w {
+		// every value of the index type is in range (a byte indexing a [256]T array)
+		return int(ip.ex.Concretize(t, "index"))
+	}
 	inb := ip.ts.Cmp(OpUlt, t, Const(int(t.w), uint64(n)))
+	if t.w < 63 && uint64(n) >= uint64(1)<<t.w {
+		// signed narrow index: in range iff non-negative
+		inb = ip.ts.BNot(ip.ts.Cmp(OpSlt, t, Const(int(t.w), 0)))
+	}
 	if n == 0 || !ip.ex.Branch(inb) {
 		ip.throw(fmt.Sprintf("index out of range [symbolic] with length %d", n))
 	}
